@@ -429,8 +429,16 @@ class WorkQueue:
         self,
         new_groups: Sequence[Group],
         non_empty_new_groups: list[Group] | None = None,
+        values: list[Any] | None = None,
+        new_streams: list[Stream] | None = None,
     ) -> list[Group]:
-        """Prune empty groups, promoting their non-empty descendants."""
+        """Prune empty groups, promoting their non-empty descendants.
+
+        A pruned group may still hold completed tasks shared with other groups
+        whose values have not been delivered yet. When it has child groups,
+        these values (and the streams produced by these tasks) are collected,
+        so that they are delivered before the child groups are promoted.
+        """
         if non_empty_new_groups is None:
             non_empty_new_groups = []
         group_nodes = self._group_nodes
@@ -441,10 +449,29 @@ class WorkQueue:
                     non_empty_new_groups.append(new_group)
                 else:
                     del group_nodes[new_group]
+                    child_groups = new_group_node.child_groups
+                    if child_groups and values is not None and new_streams is not None:
+                        self._collect_completed_tasks(
+                            new_group_node, values, new_streams
+                        )
                     self._prune_empty_groups(
-                        new_group_node.child_groups, non_empty_new_groups
+                        child_groups, non_empty_new_groups, values, new_streams
                     )
         return non_empty_new_groups
+
+    def _collect_completed_tasks(
+        self, group_node: _GroupNode, values: list[Any], new_streams: list[Stream]
+    ) -> None:
+        """Collect the values and streams of the completed tasks of a group."""
+        task_nodes = self._task_nodes
+        for task in list(group_node.tasks):
+            task_node = task_nodes.get(task)
+            if task_node:  # pragma: no branch
+                value = task_node.value
+                if value is not _UNSET:  # pragma: no branch
+                    values.append(value)
+                new_streams.extend(task_node.child_streams)
+                self._remove_task(task)
 
     def _start_new_work(
         self, new_groups: Sequence[Group], new_streams: Sequence[Stream]
@@ -625,16 +652,10 @@ class WorkQueue:
         del self._group_nodes[group]
         values: list[Any] = []
         new_streams: list[Stream] = []
-        task_nodes = self._task_nodes
-        for task in list(group_node.tasks):
-            task_node = task_nodes.get(task)
-            if task_node:  # pragma: no branch
-                value = task_node.value
-                if value is not _UNSET:  # pragma: no branch
-                    values.append(value)
-                new_streams.extend(task_node.child_streams)
-                self._remove_task(task)
-        new_groups = self._prune_empty_groups(group_node.child_groups)
+        self._collect_completed_tasks(group_node, values, new_streams)
+        new_groups = self._prune_empty_groups(
+            group_node.child_groups, None, values, new_streams
+        )
         del self._root_groups[group]
         return (
             GroupValuesEvent(group, values) if values else None,
